@@ -161,8 +161,7 @@ theorem detyz_to_xy_pzzp_eq (coor : Fin 2 → ℝ) (dety_size detz_size : ℝ) (
       = (!![(1 : ℝ), (0 : ℝ); (0 : ℝ), (1 : ℝ)] : Matrix (Fin 2) (Fin 2) ℝ) := by
     apply Matrix.inv_eq_right_inv
     ext i j; fin_cases i <;> fin_cases j <;> simp [Matrix.mul_apply, Fin.sum_univ_two]
-  unfold Detector.detyz_to_xy_pzzp
-  simp only []
+  simp only [Detector.detyz_to_xy_pzzp]
   rw [hinv]
   generalize detz_size - 1 = a at *
   generalize dety_size - 1 = b at *
@@ -191,8 +190,7 @@ theorem detyz_to_xy_mzzp_eq (coor : Fin 2 → ℝ) (dety_size detz_size : ℝ) (
       = (!![(-1 : ℝ), (0 : ℝ); (0 : ℝ), (1 : ℝ)] : Matrix (Fin 2) (Fin 2) ℝ) := by
     apply Matrix.inv_eq_right_inv
     ext i j; fin_cases i <;> fin_cases j <;> simp [Matrix.mul_apply, Fin.sum_univ_two]
-  unfold Detector.detyz_to_xy_mzzp
-  simp only []
+  simp only [Detector.detyz_to_xy_mzzp]
   rw [hinv]
   generalize detz_size - 1 = a at *
   generalize dety_size - 1 = b at *
@@ -221,8 +219,7 @@ theorem detyz_to_xy_pzzm_eq (coor : Fin 2 → ℝ) (dety_size detz_size : ℝ) (
       = (!![(1 : ℝ), (0 : ℝ); (0 : ℝ), (-1 : ℝ)] : Matrix (Fin 2) (Fin 2) ℝ) := by
     apply Matrix.inv_eq_right_inv
     ext i j; fin_cases i <;> fin_cases j <;> simp [Matrix.mul_apply, Fin.sum_univ_two]
-  unfold Detector.detyz_to_xy_pzzm
-  simp only []
+  simp only [Detector.detyz_to_xy_pzzm]
   rw [hinv]
   generalize detz_size - 1 = a at *
   generalize dety_size - 1 = b at *
@@ -251,8 +248,7 @@ theorem detyz_to_xy_mzzm_eq (coor : Fin 2 → ℝ) (dety_size detz_size : ℝ) (
       = (!![(-1 : ℝ), (0 : ℝ); (0 : ℝ), (-1 : ℝ)] : Matrix (Fin 2) (Fin 2) ℝ) := by
     apply Matrix.inv_eq_right_inv
     ext i j; fin_cases i <;> fin_cases j <;> simp [Matrix.mul_apply, Fin.sum_univ_two]
-  unfold Detector.detyz_to_xy_mzzm
-  simp only []
+  simp only [Detector.detyz_to_xy_mzzm]
   rw [hinv]
   generalize detz_size - 1 = a at *
   generalize dety_size - 1 = b at *
@@ -281,8 +277,7 @@ theorem detyz_to_xy_zppz_eq (coor : Fin 2 → ℝ) (dety_size detz_size : ℝ) (
       = (!![(0 : ℝ), (1 : ℝ); (1 : ℝ), (0 : ℝ)] : Matrix (Fin 2) (Fin 2) ℝ) := by
     apply Matrix.inv_eq_right_inv
     ext i j; fin_cases i <;> fin_cases j <;> simp [Matrix.mul_apply, Fin.sum_univ_two]
-  unfold Detector.detyz_to_xy_zppz
-  simp only []
+  simp only [Detector.detyz_to_xy_zppz]
   rw [hinv]
   generalize detz_size - 1 = a at *
   generalize dety_size - 1 = b at *
@@ -311,8 +306,7 @@ theorem detyz_to_xy_zmmz_eq (coor : Fin 2 → ℝ) (dety_size detz_size : ℝ) (
       = (!![(0 : ℝ), (-1 : ℝ); (-1 : ℝ), (0 : ℝ)] : Matrix (Fin 2) (Fin 2) ℝ) := by
     apply Matrix.inv_eq_right_inv
     ext i j; fin_cases i <;> fin_cases j <;> simp [Matrix.mul_apply, Fin.sum_univ_two]
-  unfold Detector.detyz_to_xy_zmmz
-  simp only []
+  simp only [Detector.detyz_to_xy_zmmz]
   rw [hinv]
   generalize detz_size - 1 = a at *
   generalize dety_size - 1 = b at *
@@ -341,8 +335,7 @@ theorem detyz_to_xy_zmpz_eq (coor : Fin 2 → ℝ) (dety_size detz_size : ℝ) (
       = (!![(0 : ℝ), (1 : ℝ); (-1 : ℝ), (0 : ℝ)] : Matrix (Fin 2) (Fin 2) ℝ) := by
     apply Matrix.inv_eq_right_inv
     ext i j; fin_cases i <;> fin_cases j <;> simp [Matrix.mul_apply, Fin.sum_univ_two]
-  unfold Detector.detyz_to_xy_zmpz
-  simp only []
+  simp only [Detector.detyz_to_xy_zmpz]
   rw [hinv]
   generalize detz_size - 1 = a at *
   generalize dety_size - 1 = b at *
@@ -371,8 +364,7 @@ theorem detyz_to_xy_zpmz_eq (coor : Fin 2 → ℝ) (dety_size detz_size : ℝ) (
       = (!![(0 : ℝ), (-1 : ℝ); (1 : ℝ), (0 : ℝ)] : Matrix (Fin 2) (Fin 2) ℝ) := by
     apply Matrix.inv_eq_right_inv
     ext i j; fin_cases i <;> fin_cases j <;> simp [Matrix.mul_apply, Fin.sum_univ_two]
-  unfold Detector.detyz_to_xy_zpmz
-  simp only []
+  simp only [Detector.detyz_to_xy_zpmz]
   rw [hinv]
   generalize detz_size - 1 = a at *
   generalize dety_size - 1 = b at *
@@ -381,6 +373,39 @@ theorem detyz_to_xy_zpmz_eq (coor : Fin 2 → ℝ) (dety_size detz_size : ℝ) (
       min_eq_left (neg_nonpos.mpr ha), min_eq_left (neg_nonpos.mpr hb)] <;> ring
 
 /-! ### (dety, detz) <-> (eta, radpix) -/
+
+namespace C11
+/-! Closed forms of the two generated maps. Every later proof goes through these two lemmas, so the main
+theorems never see the `let`/`if` layout of the generated bodies: the lemmas are proved by case analysis on the
+two *conditions* (not on the syntactic if-tree) and `ring_nf`/`simp` normalisation (so `x*x` vs `x^2`, named
+constants such as `rad2deg`, operand order and the nesting order of the `if`s are all immaterial). -/
+
+lemma eta_and_radpix_to_detyz_eq (eta radpix yc zc : ℝ) :
+    Detector.eta_and_radpix_to_detyz eta radpix yc zc
+      = ![yc - radpix * Real.sin (eta * Real.pi / 180),
+          zc + radpix * Real.cos (eta * Real.pi / 180)] := by
+  simp only [Detector.eta_and_radpix_to_detyz]
+  ext i; fin_cases i <;>
+    simp only [Fin.zero_eta, Fin.mk_one, Fin.isValue, Matrix.cons_val_zero, Matrix.cons_val_one] <;>
+    ring_nf
+
+lemma detyz_to_eta_and_radpix_eq (coor : Fin 2 → ℝ) (yc zc : ℝ) :
+    Detector.detyz_to_eta_and_radpix coor yc zc
+      = ![if coor 0 - yc ≤ 0 then
+            180 / Real.pi * Real.arccos
+              (if Real.sqrt ((coor 0 - yc) ^ 2 + (coor 1 - zc) ^ 2) < 1 then 1
+               else (coor 1 - zc) / Real.sqrt ((coor 0 - yc) ^ 2 + (coor 1 - zc) ^ 2))
+          else
+            360 - 180 / Real.pi * Real.arccos
+              (if Real.sqrt ((coor 0 - yc) ^ 2 + (coor 1 - zc) ^ 2) < 1 then 1
+               else (coor 1 - zc) / Real.sqrt ((coor 0 - yc) ^ 2 + (coor 1 - zc) ^ 2)),
+          Real.sqrt ((coor 0 - yc) ^ 2 + (coor 1 - zc) ^ 2)] := by
+  simp only [Detector.detyz_to_eta_and_radpix]
+  by_cases h1 : Real.sqrt ((coor 0 - yc) ^ 2 + (coor 1 - zc) ^ 2) < 1 <;>
+    by_cases h2 : coor 0 - yc ≤ 0 <;>
+    ring_nf at h1 h2 ⊢ <;> simp [h1, h2]
+
+end C11
 
 /-- C11: `detyz_to_eta_and_radpix ∘ eta_and_radpix_to_detyz = id` for `radpix ≥ 1`, `0 ≤ eta ≤ 360`, up to the
 identification 0 ≡ 360: in exact real arithmetic the endpoint `eta = 360` comes back as `0`
@@ -396,17 +421,15 @@ theorem eta_rad_inverse (eta radpix yc zc : ℝ) (hr : 1 ≤ radpix) (h0 : 0 ≤
   have he0 : 0 ≤ e := by rw [he]; positivity
   have he1 : e ≤ 2 * Real.pi := by
     rw [he]; nlinarith
-  have hc0 : (Detector.eta_and_radpix_to_detyz eta radpix yc zc) 0 - yc = radpix * -Real.sin e := by
-    simp [Detector.eta_and_radpix_to_detyz, he]
-  have hc1 : (Detector.eta_and_radpix_to_detyz eta radpix yc zc) 1 - zc = radpix * Real.cos e := by
-    simp [Detector.eta_and_radpix_to_detyz, he]
+  have hc0 : yc - radpix * Real.sin e - yc = radpix * -Real.sin e := by ring
+  have hc1 : zc + radpix * Real.cos e - zc = radpix * Real.cos e := by ring
   have hrad : Real.sqrt ((radpix * -Real.sin e) ^ 2 + (radpix * Real.cos e) ^ 2) = radpix := by
     have : (radpix * -Real.sin e) ^ 2 + (radpix * Real.cos e) ^ 2 = radpix ^ 2 := by
       linear_combination radpix ^ 2 * Real.sin_sq_add_cos_sq e
     rw [this, Real.sqrt_sq hr0.le]
   have hcos : radpix * Real.cos e / radpix = Real.cos e := by field_simp
-  unfold Detector.detyz_to_eta_and_radpix
-  simp only []
+  rw [detyz_to_eta_and_radpix_eq, eta_and_radpix_to_detyz_eq]
+  simp only [Matrix.cons_val_zero, Matrix.cons_val_one, ← he]
   rw [hc0, hc1, hrad, if_neg (not_lt.mpr hr), hcos]
   by_cases hle : e ≤ Real.pi
   · -- eta ≤ 180
@@ -468,28 +491,22 @@ theorem detyz_eta_rad_inverse (coor : Fin 2 → ℝ) (yc zc : ℝ)
     field_simp
   have hcos : r * Real.cos (Real.arccos (dz / r)) = dz := by
     rw [Real.cos_arccos hx1 hx2]; field_simp
-  unfold Detector.detyz_to_eta_and_radpix
-  simp only []
+  have hy : yc + dy = coor 0 := by rw [hdy]; ring
+  have hz : zc + dz = coor 1 := by rw [hdz]; ring
+  rw [detyz_to_eta_and_radpix_eq, eta_and_radpix_to_detyz_eq]
+  simp only [Matrix.cons_val_zero, Matrix.cons_val_one]
   rw [← hdy, ← hdz, ← hrdef, if_neg (not_lt.mpr hr)]
   by_cases hle : dy ≤ 0
-  · rw [if_pos hle]
-    have hang : 180 / Real.pi * Real.arccos (dz / r) * Real.pi / 180 = Real.arccos (dz / r) := by
+  · have hang : 180 / Real.pi * Real.arccos (dz / r) * Real.pi / 180 = Real.arccos (dz / r) := by
       field_simp
-    ext i; fin_cases i
-    · simp [Detector.eta_and_radpix_to_detyz, hang]
-      rw [hsin, abs_of_nonpos hle, hdy]; ring
-    · simp [Detector.eta_and_radpix_to_detyz, hang]
-      rw [hcos, hdz]; ring
-  · rw [if_neg hle]
-    replace hle := not_le.mp hle
-    have hang : (360 - 180 / Real.pi * Real.arccos (dz / r)) * Real.pi / 180
+    rw [if_pos hle, hang, hsin, hcos, abs_of_nonpos hle, sub_neg_eq_add, hy, hz]
+    ext i; fin_cases i <;> rfl
+  · have hang : (360 - 180 / Real.pi * Real.arccos (dz / r)) * Real.pi / 180
         = 2 * Real.pi - Real.arccos (dz / r) := by
       field_simp; ring
-    ext i; fin_cases i
-    · simp [Detector.eta_and_radpix_to_detyz, hang, Real.sin_two_pi_sub]
-      rw [hsin, abs_of_pos hle, hdy]; ring
-    · simp [Detector.eta_and_radpix_to_detyz, hang, Real.cos_two_pi_sub]
-      rw [hcos, hdz]; ring
+    rw [if_neg hle, hang, Real.sin_two_pi_sub, Real.cos_two_pi_sub, mul_neg, hsin, hcos,
+      abs_of_pos (not_le.mp hle), sub_neg_eq_add, hy, hz]
+    ext i; fin_cases i <;> rfl
 
 /-- hypotheses of `eta_rad_inverse` / `detyz_eta_rad_inverse` are satisfiable on non-trivial inputs, and the
 endpoint `eta = 360` really is mapped to `0` by the real-number model. -/
